@@ -138,6 +138,21 @@ func (i *interpreter) sprintf(fr *frame, format string, args []value) (value, va
 			}
 			continue
 		}
+		if verb == 'c' && spec == "%c" {
+			if itf, ok := arg.(iface); ok {
+				if sv, ok := itf.v.(*sym); ok && sv.t.sort.k == sBV {
+					ts := i.ts
+					w := sv.t.sort.w
+					if fr.cond(boolVal(ts.bvCmp("bvult", sv.t, ts.BV(0x80, w)))) {
+						out = append(out, value(&sym{ts.Resize(sv.t, 8, false)}))
+					} else {
+						r := rune(fr.concretize(sv, "%c"))
+						emit(string(r))
+					}
+					continue
+				}
+			}
+		}
 		nat, piece, ok := i.printable(fr, arg, verb)
 		if !ok {
 			opaque = true
